@@ -146,8 +146,8 @@ FACTS = {"C01": ["DispatchMerge"], "C02": ["DispatchMerge"], "C03": ["Formats", 
 # translation-equivalence modules (BklProofs/Facts/Trans<Unit>.lean over the regenerated Generated/Trans/<Unit>.lean):
 # "what the Go source says now = what the model says", per property that rests on that source file
 TRANS = {"C06": ["TransValidate", "TransFinalize"], "C07": ["TransValidate"], "C09": ["TransFinalize"],
-         "C01": ["TransMatch", "TransUtil"], "C02": ["TransMatch"], "C10": ["TransMatch"], "C11": ["TransUtil"],
-         "C16": ["TransBkli"], "C17": ["TransBklr"], "C19": ["TransUtil"]}
+         "C01": ["TransMatch", "TransUtil", "TransFilter"], "C02": ["TransMatch"], "C10": ["TransMatch"], "C11": ["TransUtil", "TransFilter", "TransOutput"],
+         "C12": ["TransFilter"], "C14": ["TransEncode"], "C15": ["TransBkld"], "C16": ["TransBkli"], "C17": ["TransBklr"], "C19": ["TransUtil"]}
 for _p, _ms in TRANS.items():
     FACTS[_p] = FACTS.get(_p, []) + _ms
 
